@@ -45,11 +45,12 @@ DecVal(t) == IF Len(t) = 0 THEN 0 ELSE 10 * DecVal(SubSeq(t, 1, Len(t) - 1)) + (
 \* canonical decimal numeral of at most k digits: no sign, no leading zero
 IsDecText(t, k) == Len(t) \in 1..k /\ AllDigitCp(t) /\ (Len(t) > 1 => t[1] # 48)
 
+RECURSIVE FirstAt(_, _, _)
+FirstAt(t, sep, i) == IF i > Len(t) THEN 0 ELSE IF t[i] = sep THEN i ELSE FirstAt(t, sep, i + 1)
 RECURSIVE SplitText(_, _)
-SplitText(t, sep) ==
-  IF \A i \in 1..Len(t) : t[i] # sep THEN <<t>>
-  ELSE LET k == CHOOSE i \in 1..Len(t) : t[i] = sep /\ \A j \in 1..(i - 1) : t[j] # sep
-       IN  <<SubSeq(t, 1, k - 1)>> \o SplitText(SubSeq(t, k + 1, Len(t)), sep)
+SplitText(t, sep) ==          \* fields between separators; a text without separator is one field
+  LET k == FirstAt(t, sep, 1) IN
+  IF k = 0 THEN <<t>> ELSE <<SubSeq(t, 1, k - 1)>> \o SplitText(SubSeq(t, k + 1, Len(t)), sep)
 RECURSIVE JoinText(_, _)
 JoinText(fs, sep) == IF Len(fs) = 1 THEN fs[1] ELSE fs[1] \o <<sep>> \o JoinText(Tail(fs), sep)
 
@@ -71,6 +72,7 @@ PlmnToWire(p) == << 16 * p.mcc[2] + p.mcc[1],
                     16 * p.mnc[2] + p.mnc[1] >>
 
 PlmnFromWire(o) ==
+  IF Len(o) # 3 THEN [ok |-> FALSE, v |-> NoPlmn] ELSE
   LET mcc1 == Lo(o[1])  mcc2 == Hi(o[1])  mcc3 == Lo(o[2])
       mnc3 == Hi(o[2])  mnc1 == Lo(o[3])  mnc2 == Hi(o[3])
   IN [ok |-> Len(o) = 3 /\ {mcc1, mcc2, mcc3, mnc1, mnc2} \subseteq 0..9 /\ mnc3 \in (0..9) \cup {15},
@@ -80,7 +82,8 @@ PlmnToText(p)  == DigitText(p.mcc \o p.mnc)            \* MCC then MNC, 5 or 6 c
 MccText(p)     == DigitText(p.mcc)
 MncText(p)     == DigitText(p.mnc)
 PlmnFromText(t) ==
-  [ok |-> Len(t) \in {5, 6} /\ AllDigitCp(t),
+  IF Len(t) \notin {5, 6} THEN [ok |-> FALSE, v |-> NoPlmn] ELSE
+  [ok |-> AllDigitCp(t),
    v  |-> [mcc |-> DigitsOf(SubSeq(t, 1, 3)), mnc |-> DigitsOf(SubSeq(t, 4, Len(t)))]]
 \* MCC and MNC given as two separate texts
 PlmnFromTexts(tm, tn) ==
@@ -93,8 +96,8 @@ AmfOK(a) == a[1] \in 0..255 /\ a[2] \in 0..1023 /\ a[3] \in 0..63
 AmfToWire(a)   == << a[1], a[2] \div 4, 64 * (a[2] % 4) + a[3] >>
 AmfFromWire(o) == << o[1], 4 * o[2] + (o[3] \div 64), o[3] % 64 >>
 AmfToText(a)   == HexText(AmfToWire(a))
-AmfFromText(t) == [ok |-> Len(t) = 6 /\ AllHexCp(t),
-                   v  |-> AmfFromWire(HexOctets(t))]
+AmfFromText(t) == IF Len(t) # 6 THEN [ok |-> FALSE, v |-> <<0, 0, 0>>]
+                  ELSE [ok |-> AllHexCp(t), v |-> AmfFromWire(HexOctets(t))]
 \* the same thing said with numbers: the 24-bit number is region * 2^16 + set * 2^6 + pointer
 AmfNumber(a)   == 65536 * a[1] + 64 * a[2] + a[3]
 WireNumber(o)  == 65536 * o[1] + 256 * o[2] + o[3]
@@ -200,7 +203,7 @@ SuciFromText(t) ==
                   /\ IsDecText(f[7], 3) /\ DecVal(f[7]) <= 255
                   /\ Len(f[8]) >= 1
                   /\ IF null THEN AllDigitCp(f[8]) ELSE (Len(f[8]) % 2 = 0 /\ AllHexCp(f[8])),
-           v  |-> [fmt |-> 0, plmn |-> p.v, ri |-> DigitsOf(f[5]), scheme |-> HexVal(f[6][1]), pki |-> DecVal(f[7]),
+           v  |-> [fmt |-> 0, plmn |-> p.v, ri |-> DigitsOf(f[5]), scheme |-> IF Len(f[6]) = 1 THEN HexVal(f[6][1]) ELSE 0, pki |-> DecVal(f[7]),
                    out |-> IF null THEN DigitsOf(f[8]) ELSE HexOctets(f[8])]]
 
 \* ------------------------------------------------------------------ PEI: IMEI / IMEISV (fig. 9.11.3.4.6)
